@@ -37,8 +37,33 @@ MODELLED = ["array shapes/dtypes are not modelled: payload = flattened content; 
             "save_state/load_state (dill round trip) = import of fresh arrays; not exercised here (C08)",
             "non-ndarray mutable values (lists, object arrays) are outside the model: _ensure_copy returns them uncopied"]
 ASSUMPTIONS = ["the caller can only write into arrays it was handed (returned by an accessor or created by itself)",
-               "references stored on request (set_current/update_current(copy=False), update_from_dict) are shared by design: "
-               "the theorems exclude exactly those addresses (ghost set `imported`)"]
+               "references stored on request are shared by design and the theorems exclude exactly those addresses: arrays passed with "
+               "copy=False or inside the '_current' section of update_from_dict may alias _current only (ghost set `imported`), arrays inside "
+               "the '_history' section of update_from_dict may alias _history (ghost set `importedH`); an array passed with copy=False "
+               "must still never alias committed history or results (C17_history_indep_of_scribble; checked by the oracle)"]
+
+
+
+def translators():
+    """static tie G5 (key sets): the key lists hard-wired in Model/StateMgr.lean must be the sets of the real module"""
+    import os
+    import re
+    from tempest import state_manager as smod
+    src = open(os.path.join(common.LEAN, "TempestVerif", "Model", "StateMgr.lean")).read()
+    out = {}
+    for name in ("currentKeys", "historyKeys"):
+        m = re.search(r"def %s : List Key :=\s*\[([^\]]*)\]" % name, src)
+        if not m:
+            return [("G5-keysets", "unavailable", f"cannot find {name} in the model source")]
+        out[name] = re.findall(r'"([^"]*)"', m.group(1))
+    ok = (sorted(out["currentKeys"]) == sorted(smod.CURRENT_STATE_KEYS) and len(set(out["currentKeys"])) == len(out["currentKeys"])
+          and sorted(out["historyKeys"]) == sorted(smod.HISTORY_STATE_KEYS) and len(set(out["historyKeys"])) == len(out["historyKeys"])
+          and sorted(CUR_KEYS) == sorted(smod.CURRENT_STATE_KEYS) and sorted(HIST_KEYS) == sorted(smod.HISTORY_STATE_KEYS)
+          and set(smod.REQUIRED_COMMIT_KEYS) == {"beta", "logl"})
+    return [("G5-keysets", "ok" if ok else "broken",
+             f"CURRENT_STATE_KEYS={sorted(smod.CURRENT_STATE_KEYS)} HISTORY_STATE_KEYS={sorted(smod.HISTORY_STATE_KEYS)} "
+             f"REQUIRED_COMMIT_KEYS={sorted(smod.REQUIRED_COMMIT_KEYS)} vs model {out}")]
+
 
 CUR_KEYS = ["u", "x", "logl", "assignments", "blobs", "acceptance", "steps", "efficiency", "ess", "beta", "logz", "calls", "iter"]
 HIST_KEYS = ["u", "x", "logl", "blobs", "iter", "logz", "calls", "steps", "efficiency", "ess", "acceptance", "beta"]
@@ -288,7 +313,6 @@ def run_real(tokens):
     return out, r
 
 
-# the digest of get_current()/results in `r=` for dict results: results dict drops nothing but None; mirror of showPRes
 # ------------------------------------------------------------------ generator
 class Gen:
     def __init__(self, rng):
@@ -366,7 +390,10 @@ class Gen:
         elif r == 8:
             self.emit(f"imp:{self.rng.randint(0, len(self.toks) + 3)}:ch", ("other",))
         elif r == 9:
-            self.emit(f"set:u:H{self.rng.randint(0, len(self.toks) + 3)}:1", ("other",))
+            # a handle that cannot denote a single array: an op that returned none, or an op that does not exist yet
+            c = [i for i, m in enumerate(self.meta) if m[0] in ("commit", "scr", "imp")]   # these never hand out arrays
+            i = self.rng.choice(c) if c and self.rng.random() < 0.7 else len(self.toks) + self.rng.randint(0, 3)
+            self.emit(f"set:u:H{i}:1", ("other",))
         elif r == 10:
             hk = self.rng.choice(["beta", "logz", "iter"])
             self.emit(f"geth:{hk}:*:1", ("other",))       # np.concatenate of scalars / of nothing
@@ -455,19 +482,47 @@ def gen_sequence(rng):
     return g.toks
 
 
+# ------------------------------------------------------------------ model side, in the background
+def model_async(lines, parts=4):
+    """run the lines through the compiled model driver in `parts` processes while the caller works; returns join()"""
+    import threading
+    drv = common.Driver()
+    size = max(1, (len(lines) + parts - 1) // parts)
+    chunks = [lines[i:i + size] for i in range(0, len(lines), size)]
+    res = [None] * len(chunks)
+    errs = []
+
+    def work(i):
+        try:
+            res[i] = drv.batch(chunks[i])
+        except Exception as e:  # noqa
+            errs.append(e)
+    ths = [threading.Thread(target=work, args=(i,)) for i in range(len(chunks))]
+    for t in ths:
+        t.start()
+
+    def join():
+        for t in ths:
+            t.join()
+        if errs:
+            raise errs[0]
+        return [x for r in res for x in r]
+    return join
+
+
 # ------------------------------------------------------------------ suite 1
 def correspond_ops(tier):
-    n = 1800 if tier == "quick" else 40000
+    n = 1800 if tier == "quick" else 30000
     rng = common.rng_for("C17.ops")
     c = Corr("statemanager-ops", "exact (reference model, no arithmetic)")
-    drv = common.Driver()
     seqs = [gen_sequence(rng) for _ in range(n)]
     # a few fixed sequences: the three former aliasing witnesses and the append-only shape
     seqs[:0] = [t.split(";") for t in FIXED]
     lines = ["sm.run ops=" + ";".join(t) for t in seqs]
-    model = drv.batch(lines)
-    for toks, line, ans in zip(seqs, lines, model):
-        impl, r = run_real(toks)
+    join = model_async(lines)
+    real = [run_real(toks) for toks in seqs]
+    model = join()
+    for toks, line, ans, (impl, r) in zip(seqs, lines, model, real):
         nontrivial = r.stats["commit"] >= 1 and r.stats["arrays_out"] >= 1 and r.stats["scribbled"] >= 1
         c.case(toks, nontrivial)
         c.count("len", len(toks))
@@ -567,8 +622,56 @@ def _scribble(obj):
     return n
 
 
+SAMPLER_TIME_LIMIT = 20.0      # seconds; a normal run of <= 7 iterations takes well under one second
+
+
+class _Hang(Exception):
+    pass
+
+
+@contextlib.contextmanager
+def _time_limit(seconds):
+    """the real code may stop terminating once its state has been corrupted; bound every run (main thread only)"""
+    import signal
+    import threading
+    if threading.current_thread() is not threading.main_thread():
+        yield
+        return
+
+    def on_alarm(signum, frame):
+        raise _Hang(f"no progress within {seconds} s")
+    old = signal.signal(signal.SIGALRM, on_alarm)
+    signal.setitimer(signal.ITIMER_REAL, seconds)
+    try:
+        yield
+    finally:
+        signal.setitimer(signal.ITIMER_REAL, 0)
+        signal.signal(signal.SIGALRM, old)
+
+
 def sampler_run(seed, n_iter, rng, c=None):
-    """returns (tokens, impl digests, problems) for one Sampler run with scribbling"""
+    """returns (tokens, impl digests, problems) for one Sampler run with scribbling.  If the real code raises, the same run
+    is repeated without the caller's writes: only a failure that the writes caused is a problem of this property."""
+    import random
+    st = rng.getstate()
+    try:
+        with _time_limit(SAMPLER_TIME_LIMIT):
+            return _sampler_run(seed, n_iter, rng, c, True)
+    except Exception as e:  # noqa
+        rng2 = random.Random()
+        rng2.setstate(st)
+        try:
+            with _time_limit(SAMPLER_TIME_LIMIT):
+                _sampler_run(seed, n_iter, rng2, None, False)
+        except Exception as e2:  # noqa
+            if c is not None:
+                c.count("sampler_raised_without_scribbling:" + type(e2).__name__)
+            return [], [], []
+        return [], [], [f"the run raised {type(e).__name__}: {e} after the caller overwrote returned arrays "
+                        f"(the same run without the writes completes)"]
+
+
+def _sampler_run(seed, n_iter, rng, c, do_scribble):
     from .witnesses import _mk_sampler
     problems = []
     enc = _Enc()
@@ -623,7 +726,7 @@ def sampler_run(seed, n_iter, rng, c=None):
                 outs.append(("to_dict", d, i_td))
             rng.shuffle(outs)
             for name, o, idx in outs:
-                n = _scribble(o)
+                n = _scribble(o) if do_scribble else 0
                 if c is not None:
                     c.count("scribbled:" + name, n)
                 if idx is not None:
@@ -655,7 +758,7 @@ def sampler_run(seed, n_iter, rng, c=None):
 
 
 def correspond_sampler(tier):
-    n = 24 if tier == "quick" else 300
+    n = 24 if tier == "quick" else 200
     rng = common.rng_for("C17.sampler")
     c = Corr("sampler-iterations", "exact (recorded mutator calls replayed on the reference model; values named by content)")
     drv = common.Driver()
@@ -664,14 +767,18 @@ def correspond_sampler(tier):
         seed = rng.randint(0, 2 ** 31 - 1)
         n_iter = rng.randint(3, 7)
         toks, impl, problems = sampler_run(seed, n_iter, rng, c)
+        c.count("pipeline_mutator_calls", sum(1 for t in toks if t.split(":")[0] in ("set", "upd", "commit")))
+        c.count("pipeline_copy_false_calls", sum(1 for t in toks if t.split(":")[0] in ("set", "upd") and t.endswith(":0")))
         runs.append((seed, n_iter, toks, impl, problems))
-    lines = ["sm.run ops=" + ";".join(t[2]) for t in runs]
+    lines = ["sm.run ops=" + (";".join(t[2]) or "-") for t in runs]
     model = drv.batch(lines)
     for (seed, n_iter, toks, impl, problems), line, ans in zip(runs, lines, model):
         c.case((seed, n_iter, toks), n_iter >= 2)
         m = ans.split("|")
         for p in problems[:3]:
             c.disagree(input=f"sampler seed={seed} n_iter={n_iter}", impl=p, model="one commit per iteration, no aliasing", sampler_seed=seed)
+        if not toks:
+            continue
         if len(m) != len(impl):
             c.disagree(input=line[:300], impl=f"{len(impl)} ops", model=f"{len(m)} digests", sampler_seed=seed)
             continue
@@ -693,17 +800,22 @@ def correspond(tier):
 
 
 # ------------------------------------------------------------------ property oracle on the real code
+def _frozen(v):
+    """private snapshot: the oracle must not depend on the accessors returning copies"""
+    return v.copy() if isinstance(v, np.ndarray) else v
+
+
 def _state_reads(sm):
-    """all observable reads, as comparable python objects (bitwise)"""
+    """all observable reads, as comparable python objects (bitwise); every array is copied by the oracle itself"""
     with warnings.catch_warnings():
         warnings.simplefilter("ignore")
-        cur = sm.get_current()
-        hist = read_history(sm)
+        cur = {k: _frozen(v) for k, v in sm.get_current().items()}
+        hist = {k: [_frozen(v) for v in l] for k, l in read_history(sm).items()}
         res = None
         if well_formed(hist):
             try:
                 with np.errstate(all="ignore"):
-                    res = sm.compute_results()
+                    res = {k: _frozen(v) for k, v in sm.compute_results().items()}
             except Exception as e:  # noqa
                 res = {"__error__": type(e).__name__}
     return cur, hist, res
@@ -735,29 +847,43 @@ def oracle(tokens):
     (3) a successful commit appends exactly one entry per non-None recorded key.
     Returns a description of the first violation, or None."""
     r = Real()
-    imported = []          # arrays stored by reference on request (copy=False / update_from_dict)
+    imp_c = []             # arrays stored by reference into _current on request (copy=False / imported "_current" section)
+    imp_h = []             # arrays stored by reference into _history on request (imported "_history" section)
+    isin = lambda a, l: any(a is b for b in l)  # noqa
     for j, t in enumerate(tokens):
         f = t.split(":")
         before = _state_reads(r.sm)
         kind = f[0]
+        tgt = []
         if kind == "scr" and len(f) == 3 and f[1].isdigit() and int(f[1]) < len(r.recs):
-            shared = any(any(a is b for b in imported) for a in r.recs[int(f[1])][0])
-        else:
-            shared = False
+            tgt = r.recs[int(f[1])][0]
+        shared_h = any(isin(a, imp_h) for a in tgt)
+        shared_c = any(isin(a, imp_c) for a in tgt)
         held = [a for i in _refs(t) if i < len(r.recs) for a in r.recs[i][0]]
         res = r.exec(t)
         after = _state_reads(r.sm)
-        # ghost bookkeeping of opt-in sharing: every array passed with copy=False or inside an imported dictionary
+        # ghost bookkeeping of opt-in sharing
         if res != "bad-op":
             if kind in ("set", "upd") and t.endswith(":0"):
-                imported += held + r.recs[-1][0]
-            if kind == "imp":
-                imported += held
+                imp_c += held + r.recs[-1][0]
+            if kind == "imp" and f[1].isdigit() and int(f[1]) < len(r.recs) and r.recs[int(f[1])][1] is not None:
+                ex = r.recs[int(f[1])][1]
+                if "c" in f[2]:
+                    imp_c += Real._arrays(ex["_current"])
+                if "h" in f[2]:
+                    imp_h += Real._arrays(ex["_history"])
         if kind == "scr":
-            if not shared:
-                d = _cmp_reads(before, after)
+            if shared_h:
+                continue
+            if shared_c:
+                # an array shared with _current on request: history and results must still be untouched
+                d = _cmp_reads(({}, before[1], before[2]), ({}, after[1], after[2]))
                 if d:
-                    return f"op {j} `{t}`: overwriting returned arrays changed {d}"
+                    return f"op {j} `{t}`: overwriting an array that was stored with copy=False changed {d}"
+                continue
+            d = _cmp_reads(before, after)
+            if d:
+                return f"op {j} `{t}`: overwriting returned arrays changed {d}"
             continue
         if kind == "imp":
             continue
